@@ -200,6 +200,12 @@ func buildHarnessHandlers(h map[string]handler) {
 		e.yield(func() bool { return true }, nil)
 		return nil
 	}
+	h[H+"NegativeTimerDelay"] = func(e *Exec, fn *ssa.Function, a []Value) Value {
+		if e.negTimer == nil {
+			return tFalse
+		}
+		return e.negTimer
+	}
 	h[H+"HeldLocks"] = func(e *Exec, fn *ssa.Function, a []Value) Value { return K(int64(e.sch.cur.held)) }
 	h[H+"Symbolic"] = func(e *Exec, fn *ssa.Function, a []Value) Value { return tTrue }
 	h[H+"GoID"] = func(e *Exec, fn *ssa.Function, a []Value) Value { return K(int64(e.sch.cur.id)) }
